@@ -737,12 +737,66 @@ structure NhgKeyB where
   NextHopGroup : NhgPayloadB
   deriving DecidableEq, Repr, Inhabited
 
+/-! the next-hop builder's protobuf (`aftpb.Afts_NextHopKey`); its payload is allocated by the
+first method that needs it -/
+
+structure BoolValue where
+  Value : Bool
+  deriving DecidableEq, Repr, Inhabited
+
+structure IfRefB where
+  Interface : Option StringValue
+  Subinterface : Option UintValue
+  deriving DecidableEq, Repr, Inhabited
+
+structure IpInIpB where
+  SrcIp : Option StringValue
+  DstIp : Option StringValue
+  deriving DecidableEq, Repr, Inhabited
+
+structure PushedU where
+  PushedMplsLabelStackUint64 : Nat
+  deriving DecidableEq, Repr, Inhabited
+
+/-- `aftpb.Afts_NextHop` as the translated methods fill it (the encapsulation-header list is
+the business of `AddEncapHeader`, which is not translated: the methods here never touch it) -/
+structure NhPayloadB where
+  IpAddress : Option StringValue
+  InterfaceRef : Option IfRefB
+  MacAddress : Option StringValue
+  IpInIp : Option IpInIpB
+  NetworkInstance : Option StringValue
+  PopTopLabel : Option BoolValue
+  PushedMplsLabelStack : List PushedU
+  DecapsulateHeader : Nat
+  EncapsulateHeader : Nat
+  /-- `EncapHeader`: opaque here (how many there are) -/
+  EncapHeader : Nat
+  deriving DecidableEq, Repr, Inhabited
+
+structure NhKeyB where
+  Index : Nat
+  NextHop : Option NhPayloadB
+  deriving DecidableEq, Repr, Inhabited
+
+structure NhBuilder where
+  ni : String
+  pb : NhKeyB
+  electionID : Option U128
+  deriving DecidableEq, Repr, Inhabited
+
+/-- `enums.OpenconfigAftTypesEncapsulationHeaderType_…` by wire number -/
+def EncapType_IPV4 : Nat := 2
+def EncapType_MPLS : Nat := 4
+def EncapType_UDPV6 : Nat := 8
+
 /-- the `entry` oneof of `spb.AFTOperation` / `spb.AFTEntry` as the builders fill it -/
 inductive EntryB where
   | Ipv4 (Ipv4 : Option Ipv4KeyB)
   | Ipv6 (Ipv6 : Option Ipv6KeyB)
   | Mpls (Mpls : Option LabelKeyB)
   | NextHopGroup (NextHopGroup : Option NhgKeyB)
+  | NextHop (NextHop : Option NhKeyB)
   deriving DecidableEq, Repr, Inhabited
 
 /-- `spb.AFTOperation` as `OpProto` builds it (`Id` and `Op` are left to the caller) -/
